@@ -262,12 +262,14 @@ def createIndex : FdKind → Nat
 /-! #### Socket addresses passed in -/
 
 /-- `A::as_ptr(&storage)`: the bytes `[ptr, ptr+len)` handed to the kernel
-(src/net.rs:1604-1612, 1668-1671, 1714-1717, 1775-1778, 1835-1838). -/
+(src/net.rs:1604-1612, 1668-1671, 1714-1717, 1783-1786, 1845-1848). A Unix
+address is passed with the length stored by `into_storage` (`Addr.ptrLenUnix`,
+since `fix: pass the actual length of Unix addresses to the kernel`). -/
 def addrBytes : ATy → Addr → List Nat
   | .v4, .v4 ip port => Addr.storageV4 ip port
   | .v6, .v6 ip port flow scope => Addr.storageV6 ip port flow scope
   | .any, a => let st := Addr.storageAny a; st.take (Addr.ptrLenAny st)
-  | .unix, a => Addr.storageUnix a
+  | .unix, a => (Addr.storageUnix a).take (Addr.ptrLenUnix a)
   | _, _ => []
 
 /-- Size of `A::Storage` as reported by `as_mut_ptr`. -/
